@@ -42,8 +42,57 @@ def run_f2_witness(ctx):
                     "engine.f2_witness", kind="history")
 
 
+def shared_context_handler(k):
+    """k user threads start one step each on the SAME context (the context's step counter is documented as thread safe)."""
+    def handler(event, context):
+        import aws_durable_execution_sdk_python.state as sdk_state
+        threading = sdk_state.threading      # under the simulator: its Thread (user threads are scheduled like the SDK's own)
+
+        def body(c):
+            outs = {}
+
+            def w(j):
+                def f():
+                    try:
+                        outs[j] = c.step(lambda s_, j=j: j, name=f"t{j}")
+                    except Exception as e:  # noqa: BLE001  (a user thread that dies keeps its error to itself)
+                        outs[j] = -1 - j
+                return f
+            ths = [threading.Thread(target=w(j), name=f"user{j}") for j in range(k)]
+            for t in ths:
+                t.start()
+            for t in ths:
+                t.join()
+            return sorted(outs.values())
+        return context.run_in_child_context(body, name="p:1")
+    return handler
+
+
+def run_shared_context(ctx, seed, k, component="engine.shared_context"):
+    backend = FakeBackend()
+    r = run_invocation(shared_context_handler(k), backend, {"imm": []}, seed=seed, limits={"fine": True})
+    case = {"program": "shared_context", "threads": k, "seed": seed}
+    ctx.case(("shared", k, seed))
+    ctx.count("shared_context.threads=%d" % k)
+    starts = {}
+    for t, us, o in backend.calls:
+        for u in us:
+            if u["action"] == "START" and o == "ok":
+                starts[u["id"]] = starts.get(u["id"], 0) + 1
+    if backend.rejections:
+        ctx.violate("C11.backend_rejected_update", case, {"rejection": backend.rejections[0]}, component, kind="schedule")
+    elif any(n > 1 for n in starts.values()):
+        ctx.violate("C11.two_starts_for_one_operation", case, {"starts": starts}, component, kind="schedule")
+    elif r.get("hung") or r.get("limit"):
+        ctx.violate("C11.shared_context_run_never_ends", case, {"hung": r.get("hung")}, component, kind="schedule")
+    elif len([1 for t, us, o in backend.calls for u in us if u["action"] == "START" and u["type"] == "STEP"]) != k:
+        ctx.violate("C11.step_start_missing", case, {"calls": [(us, o) for t, us, o in backend.calls][:6]}, component, kind="schedule")
+
+
 def run(ctx):
     run_f2_witness(ctx)
+    for i in range(ctx.scale(60, 1500)):
+        run_shared_context(ctx, ctx.rng.randrange(1 << 30), ctx.rng.choice([2, 2, 3]))
     comp_engine.run(ctx, "C11", **comp_engine.PARAMS.get("C11", {}))
     # map/parallel: every update the real SDK sends under a schedule is accepted by the contract backend (the monitor)
     from harness import comp_executor
@@ -61,7 +110,9 @@ def replay(ctx, rec):
         from harness import comp_executor
         comp_executor.replay(ctx, rec, "C11")
         return
-    if "program" in rec["case"]:
+    if rec["case"].get("program") == "shared_context":
+        run_shared_context(ctx, rec["case"]["seed"], rec["case"]["threads"], component="engine.shared_context.replay")
+    elif "program" in rec["case"]:
         run_f2_witness(ctx)
     else:
         comp_engine.replay(ctx, rec, "C11")
